@@ -170,6 +170,10 @@ def byte_level(rng, n, frost_objs, lms_objs):
             L.append("s %s pkdec %s" % (sch, hx(mutate(rng, pk))))
             L.append("s %s skdec %s" % (sch, hx(rbytes(rng, rlen(rng, 32)))))
             if sch == "p256":
+                # public x-only sequence helper, lengths around its internal batch size
+                k0_ = rng.choice([0, 1, rng.getrandbits(256)]); k1_ = rng.choice([0, k0_, rng.getrandbits(256)])
+                L.append("g p256 wextra xseq %s %s %d" % (k0_.to_bytes(32, "little").hex(), k1_.to_bytes(32, "little").hex(),
+                                                         rng.choice([0, 1, 2, 99, 100, 197, 198, 199, 200, 201, 398, 399, 400, 401, 599, 600, rng.randrange(700)])))
                 L.append("s p256 prep %s" % hx(rbytes(rng, rlen(rng, 64))))
                 L.append("s p256 vtrunc %s %s %d %s" % (pk.hex(), hx(rbytes(rng, rlen(rng, 64))), rng.choice([8, 9, 10, 12, 16]), hx(rbytes(rng, rlen(rng, 32)))))
         elif t == 6:
